@@ -81,6 +81,8 @@ func (o op) String() string {
 		return "F"
 	case 'I':
 		return "I"
+	case 'B':
+		return fmt.Sprintf("B%d", o.N)
 	case 'V':
 		return fmt.Sprintf("V%d", o.N)
 	case 'C':
@@ -134,7 +136,7 @@ func parseOps(s string) []op {
 			out = append(out, op{K: 'F'})
 		case 'I':
 			out = append(out, op{K: 'I'})
-		case 'V', 'C':
+		case 'V', 'C', 'B':
 			out = append(out, op{K: f[0], N: ints()[0]})
 		case 'A', 'S':
 			out = append(out, op{K: f[0], N: ints()[0]})
@@ -882,6 +884,17 @@ func runCaseAttempt(g *dag.Graph, ops []op, seed uint64, attempt int) {
 			expStrays[o.N] = true
 			everStray[o.N] = true
 			kind = "stray"
+		case 'B':
+			// malformed stream: a blob with a manifest media type that does not decode: Push stores
+			// it, cannot index it and must take it away again
+			bd, bb := badManifest(o.N)
+			err = store.Push(ctx, bd, bytes.NewReader(bb))
+			expRes = "other"
+			kind = "push-undecodable"
+			if _, serr := os.Stat(filepath.Join(root, "blobs", "sha256", bd.Digest.Encoded())); serr == nil {
+				fail("push-left-garbage", fmt.Sprintf("op %d (%s): the failed Push left its blob in the storage", oi, o))
+				failed = true
+			}
 		case 'V':
 			store.AutoSaveIndex = o.N == 1
 			tr.autosave = o.N == 1
@@ -1229,6 +1242,12 @@ func stripIndex(root string) error {
 	return os.WriteFile(p, out, 0o644)
 }
 
+// badManifest: bytes that do not decode under an image-manifest media type
+func badManifest(id int) (ocispec.Descriptor, []byte) {
+	b := []byte(fmt.Sprintf("{\"schemaVersion\": 2, \"undecodable\": %d, ", id))
+	return ocispec.Descriptor{MediaType: ocispec.MediaTypeImageManifest, Digest: digest.FromBytes(b), Size: int64(len(b))}, b
+}
+
 var repeats = 1
 
 // keepLiveDigests: does GC keep the digest-only reference of a descriptor that stays in the
@@ -1315,6 +1334,9 @@ func execOnly(g *dag.Graph, ops []op) (string, bool) {
 			os.MkdirAll(filepath.Dir(p), 0o755)
 			os.WriteFile(p, []byte(fmt.Sprintf("stray %d", o.N)), 0o644)
 			strays[o.N] = true
+		case 'B':
+			bd, bb := badManifest(o.N)
+			err = store.Push(ctx, bd, bytes.NewReader(bb))
 		case 'V':
 			store.AutoSaveIndex = o.N == 1
 		case 'I':
@@ -1480,6 +1502,9 @@ func genCase(r *common.Rand) (*dag.Graph, []op) {
 			ops = append(ops, op{K: 'S', N: r.Intn(12)})
 		default:
 			ops = append(ops, op{K: 'A', N: r.Intn(2)})
+		}
+		if r.Chance(1, 25) {
+			ops = append(ops, op{K: 'B', N: r.Intn(4)})
 		}
 		if r.Chance(1, 14) {
 			// AutoSaveIndex off / on / an explicit SaveIndex
@@ -1831,7 +1856,7 @@ func coverageFloors(n int) {
 	}
 	need := map[string]int{"op:delete": n / 4, "op:gc": n / 4, "op:tag": n / 2, "op:push": 2 * n, "op:stray": n / 20, "repetitions": n / 2,
 		"gc-cancel:in-sweep": n / 50, "gc-cancel:before-rebuild": n / 100, "gc-cancel:completed": n / 100,
-		"op:autosave": n / 20, "op:saveindex": n / 50}
+		"op:autosave": n / 20, "op:saveindex": n / 50, "op:push-undecodable": n / 20}
 	if keepLiveDigests {
 		need["op:reopen"] = n / 20
 	}
